@@ -312,6 +312,10 @@ REPLACE_DT = ({"hour": 0}, {"minute": 0}, {"second": 0}, {"microsecond": 0}, {"m
               {"hour": 0, "minute": 0, "second": 0, "microsecond": 0}, {"tzinfo": None}, {"tzinfo": dt_.timezone.utc})
 
 
+DATE_DELTAS = (dt_.timedelta(days=18), dt_.timedelta(hours=36), dt_.timedelta(days=1, seconds=1), dt_.timedelta(days=-1, seconds=1),
+               dt_.timedelta(hours=-36), dt_.timedelta(microseconds=1), dt_.timedelta(days=-3, microseconds=-1))
+
+
 def check_date(acc, pendulum, n1, n2):
     f1, f2 = calref.civil_from_days(n1), calref.civil_from_days(n2)
     x, b = pendulum.Date(*f1), dt_.date(*f1)
@@ -358,6 +362,17 @@ def check_date(acc, pendulum, n1, n2):
         acc.c["evaluations"] += 1
         if got != nat or _try(lambda: fn(x, yb)) != nat or _try(lambda: fn(b, y)) != nat:
             acc.mismatch("date-compare", name, case, got, nat)
+    if n1 == n2 or n2 == n1 + 1:
+        for td in DATE_DELTAS:
+            for name, fn in (("date-minus-timedelta", lambda v: v - td), ("date-plus-timedelta", lambda v: v + td),
+                             ("timedelta-plus-date", lambda v: td + v)):
+                got, want = _try(lambda: fn(x)), _try(lambda: fn(b))
+                acc.c["evaluations"] += 1
+                acc.c["transitions"] += 1
+                if got != want:
+                    acc.mismatch("date-arith", name, dict(case, td=str(td)), got, want)
+                elif got[0] == "ok" and type(fn(x)) is not pendulum.Date:
+                    acc.mismatch("result-type", f"Date.{name}", dict(case, td=str(td)), type(fn(x)).__name__, "Date")
     got = _try(lambda: x - y)
     if got != _try(lambda: b - yb) or _try(lambda: x - yb) != got:
         acc.mismatch("date-subtract", "value", case, got, _try(lambda: b - yb))
